@@ -34,13 +34,36 @@ def peer_frame(mtype, seq, fields=()):
 
 
 class FakeReader:
-    def __init__(self, chunks, eof):
+    def __init__(self, chunks, eof, calls=None, conn=None):
         self.chunks = list(chunks)
         self.eof = eof
         self.drained = asyncio.Event()
         self.closed = asyncio.Event()
+        self.parked = asyncio.Event()
+        self.calls = {int(k): v for k, v in (calls or {}).items()}
+        self.conn = conn
+        self.nread = 0
+        self.call_log = []
+
+    async def _between(self, actions):
+        """a second coroutine runs while the read task is parked in read(): public calls that must be REFUSED"""
+        from asyncfix import FIXMessage
+        for a in actions:
+            try:
+                if a == "connect":
+                    await self.conn.connect()
+                elif a == "send-unencodable":
+                    m = FIXMessage("D")
+                    m[58] = "\u20ac"
+                    await self.conn.send_msg(m)
+                self.call_log.append(a + ":accepted")
+            except Exception as e:  # noqa: BLE001
+                self.call_log.append(a + ":" + type(e).__name__)
 
     async def read(self, n):
+        i, self.nread = self.nread, self.nread + 1
+        if i in self.calls and self.chunks and not self.closed.is_set():
+            await self._between(self.calls[i])
         if self.chunks and not self.closed.is_set():
             c = self.chunks[0]
             if len(c) <= n:
@@ -51,6 +74,7 @@ class FakeReader:
         self.drained.set()
         if self.eof:
             return b""
+        self.parked.set()          # the read task is idle: nothing more will happen unless somebody closes the socket
         await self.closed.wait()
         return b""
 
@@ -129,6 +153,18 @@ def day_stream(d):
     return b"".join(d["frames"]) + d["tail"]
 
 
+def cuts_of(c):
+    return c["cuts"] if isinstance(c, dict) else c
+
+
+def calls_of(c):
+    return c.get("calls", {}) if isinstance(c, dict) else {}
+
+
+async def _no_network(*a, **k):
+    raise ConnectionRefusedError("the harness has no network")
+
+
 async def _run(role, days):
     from asyncfix import ConnectionState
     from asyncfix.connection import AsyncFIXConnection
@@ -136,15 +172,28 @@ async def _run(role, days):
     dead = ConnectionState.DISCONNECTED_BROKEN_CONN
     conn = make_conn(role)
     out = []
-    with patch("asyncio.sleep", _fast_sleep):
+    with patch("asyncio.sleep", _fast_sleep), patch("asyncio.open_connection", _no_network), \
+            patch("asyncio.start_server", _no_network):
         if role == "acceptor":
             # what AsyncFIXDummyServer.connect() does once before it starts serving
             await AsyncFIXConnection.connect(conn)
         for d in days:
-            chunks = K.split_at(day_stream(d), d["cuts"])
-            reader = FakeReader(chunks, d["end"] == "eof")
+            chunks = K.split_at(day_stream(d), sorted(set(cuts_of(d["cuts"])) | set(d.get("forced", []))))
+            reader = FakeReader(chunks, d["end"] == "eof", calls_of(d["cuts"]), conn)
             writer = FakeWriter(reader)
             n0, c0 = len(conn.delivered), len(conn.cb)
+            jf = {"n": 0, "k": d.get("jfault")}
+            real_persist = type(conn._journaler).persist_msg
+
+            def persist(msg, session, direction, _jf=jf):
+                from asyncfix.message import MessageDirection
+                if direction == MessageDirection.INBOUND and _jf["k"] is not None:
+                    _jf["n"] += 1
+                    if _jf["n"] == _jf["k"]:
+                        import sqlite3
+                        raise sqlite3.OperationalError("database is locked")
+                return real_persist(conn._journaler, msg, session, direction)
+            conn._journaler.persist_msg = persist
             if role == "acceptor":
                 await conn._handle_accept(reader, writer)
             else:
@@ -156,7 +205,7 @@ async def _run(role, days):
             t0 = time.time()
             while not reader.drained.is_set() and conn.connection_state > dead:
                 await REAL_SLEEP(0.001)
-                if time.time() - t0 > 2.5:
+                if time.time() - t0 > 30:       # safety net only (an overloaded machine is not a hang)
                     flag = "hang"
                     break
             if conn.connection_state > dead:
@@ -164,17 +213,20 @@ async def _run(role, days):
                     await conn.disconnect(ConnectionState.DISCONNECTED_BROKEN_CONN)   # what heartbeat_timer_task does
                 elif d["end"] == "app":
                     await conn.disconnect(ConnectionState.DISCONNECTED_WCONN_TODAY, logout_message="bye")
-            t0 = time.time()
+            t0, idle = time.time(), 0
             while conn.connection_state > dead:
                 await REAL_SLEEP(0.001)
-                if time.time() - t0 > 2.5:
+                # decided logically, not by the clock: the read task is parked in read() on a silent socket and the
+                # connection is still up although its terminating message was sent / its end action was taken
+                idle = idle + 1 if reader.parked.is_set() else 0
+                if idle > 25 or time.time() - t0 > 30:
                     flag = "hang-end"
                     reader.closed.set()
                     break
             for _ in range(4):      # let the read task see the closed socket
                 await REAL_SLEEP(0.001)
             out.append({"state": conn.connection_state.name, "flag": flag,
-                        "delivered": conn.delivered[n0:], "cb": conn.cb[c0:]})
+                        "delivered": conn.delivered[n0:], "cb": conn.cb[c0:], "calls": reader.call_log})
         tasks = [t for t in (conn._aio_task_socket_read, conn._aio_task_heartbeat) if t]
         for t in tasks:
             t.cancel()
@@ -211,7 +263,8 @@ def gen_history(rng, role=None, ends=None, first_tail=None):
         if end == "logout":
             frames.append(peer_frame("5", seq, rng.choice([[], ["58=bye"]])))
         kind = first_tail if (first_tail and k == 0) else rng.choice(TAIL_KINDS)
-        nxt = peer_frame(rng.choice(["0", "D", "1"]), seq + 1, rng.choice([[], ["112=t"], ["58=8=FIX.4.4"]]))
+        nxt = peer_frame(rng.choice(["0", "D", "1"]), seq + 1, rng.choice([[], ["112=t"], ["58=8=FIX.4.4"],
+                                                                          ["58=" + "z" * rng.choice([150, 600, 2500])]]))
         tail = {"none": b"", "partial-marker": nxt[: rng.randint(1, 5)], "frame-head": nxt[: rng.randint(6, 16)],
                 "frame-prefix": nxt[: rng.randint(17, len(nxt) - 1)], "junk": rng.choice([b"\x0110=", b"xyz", b"9=12\x01", b"8=8"]),
                 "whole-frame": nxt}[kind]
@@ -219,7 +272,16 @@ def gen_history(rng, role=None, ends=None, first_tail=None):
             frames.append(nxt)          # a complete frame in front of EOF / disconnect is a frame of this connection
             seq += 1
             tail = b""
-        days.append({"frames": frames, "tail": tail, "end": end, "tail_kind": kind})
+        day = {"frames": frames, "tail": tail, "end": end, "tail_kind": kind}
+        if end != "logout" and len(frames) >= 2 and rng.random() < 0.25:
+            # E: the inbound journal write of the j-th frame fails once ('database is locked'); a fault-free frame follows in
+            # its own read so that the reader gets the read it needs to drain what the fault left in its buffer
+            day["jfault"] = rng.randint(1, len(frames))
+            day["forced"] = [sum(len(f) for f in frames)]
+            frames.append(peer_frame("0", seq))
+            seq += 1
+            day["tail_kind"] = kind + "+journal-fault"
+        days.append(day)
     return {"role": role, "days": days}
 
 
@@ -245,8 +307,17 @@ def chunkings(rng, hist, n_random):
             if rng.random() < 0.4:
                 e = canon(d)[-1]
                 cuts |= {c for c in range(max(1, e - 3), min(n, e + 8))}        # 1-byte reads around the last frame's end
-            cs.append(sorted(cuts))
+            cuts = sorted(cuts)
+            if rng.random() < 0.5:
+                # a refused public call while the read task is parked between two reads
+                nreads = len(cuts) + 1
+                cs.append({"cuts": cuts, "calls": {str(rng.randrange(1, nreads)) if nreads > 1 else "0":
+                                                     [rng.choice(["connect", "connect", "send-unencodable"])]}})
+            else:
+                cs.append(cuts)
         out.append(cs)
+    # … exactly where a read ends inside the last frame
+    out.append([{"cuts": cuts_of(c), "calls": {str(len(cuts_of(c))): ["connect"]}} for c in out[3]])
     return out
 
 
@@ -259,19 +330,21 @@ def model_chunks(d, cuts):
     s = day_stream(d)
     if d["end"] == "logout":
         s = b"".join(d["frames"])
-    return K.split_at(s, [c for c in cuts if c < len(s)])
+    return K.split_at(s, sorted({c for c in cuts_of(cuts) if c < len(s)} | {c for c in d.get("forced", []) if c < len(s)}))
 
 
 def hist_input(hist, cutlists):
     return {"history": {"role": hist["role"], "days": [
-        {"frames": [f.hex() for f in d["frames"]], "tail": d["tail"].hex(), "end": d["end"], "cuts": list(c)}
+        {"frames": [f.hex() for f in d["frames"]], "tail": d["tail"].hex(), "end": d["end"], "cuts": list(cuts_of(c)),
+         "calls": calls_of(c), "jfault": d.get("jfault"), "forced": d.get("forced", [])}
         for d, c in zip(hist["days"], cutlists)]}}
 
 
 def hist_from_input(inp):
     h = inp["history"]
-    days = [{"frames": [bytes.fromhex(x) for x in d["frames"]], "tail": bytes.fromhex(d["tail"]), "end": d["end"]} for d in h["days"]]
-    return {"role": h["role"], "days": days}, [d["cuts"] for d in h["days"]]
+    days = [{"frames": [bytes.fromhex(x) for x in d["frames"]], "tail": bytes.fromhex(d["tail"]), "end": d["end"],
+             "jfault": d.get("jfault"), "forced": d.get("forced", [])} for d in h["days"]]
+    return {"role": h["role"], "days": days}, [{"cuts": d["cuts"], "calls": d.get("calls", {})} for d in h["days"]]
 
 
 def run_with(hist, cutlists):
@@ -287,6 +360,9 @@ def clauses(hist, res, canon_res):
     """implementation only: yields (signature, what, expected, observed)"""
     for k, (d, r) in enumerate(zip(hist["days"], res)):
         raws = [x[2] for x in r["delivered"]]
+        for a in r.get("calls", []):
+            if a.endswith(":accepted"):
+                yield ("C03-history-refused-call-accepted", f"connection {k + 1}: a public call that must be refused on a live connection was accepted", "refused", a)
         if r["flag"] != "-":
             yield ("C03-history-hang", f"connection {k + 1} of the same object neither consumed its reads nor ended", "-", r["flag"])
         if raws != expected(d):
